@@ -297,6 +297,67 @@ def r5_recursion_marks(prog, res):
     res.floor("R5.mark_before_descent", "field-guarded recursive descents", n, 1)
 
 
+def r5b_stamp_stable(prog, res):
+    """A recursive walk that marks visited nodes with `node->search_id = S` and skips nodes whose `search_id == S` terminates on
+    a cyclic graph only while S keeps its value for the whole walk.  If S is a global, nothing that the walk can call may change
+    it (ENTITYfind_inherited_attribute, SCOPEfind, ... each start a new search by incrementing __SCOPE_search_id): otherwise the
+    marks go stale in the middle of the walk and a cycle is followed until the stack is exhausted."""
+    cg = prog.callgraph()
+    cg = cg[0] if isinstance(cg, tuple) else cg
+    byk = {}
+    for f in prog.all_functions():
+        byk.setdefault(f.key, f)
+    writers = {}          # global name -> set of function keys that write it
+    for f in prog.all_functions():
+        if f.component == "test":
+            continue
+        for x in f.walk():
+            tgt = None
+            if x["k"] in ("Assign", "CompoundAssign"):
+                tgt = strip(x["ch"][0])
+            elif x["k"] == "Unary" and ("++" in (x.get("op") or "") or "--" in (x.get("op") or "")):
+                tgt = strip(x["ch"][0])
+            if tgt is not None and tgt["k"] == "Ref" and tgt.get("dk") == "global":
+                writers.setdefault(tgt["n"], set()).add(f.key)
+    n = 0
+    for f in prog.all_functions():
+        if f.component == "test" or f.component not in ("express", "exppp", "exp2cxx", "exp2python") or f.key not in cg.get(f.key, ()):
+            continue
+        stamps = set()
+        for x in f.walk():
+            if x["k"] == "Binary" and x.get("op") in ("==", "!="):
+                a, b = strip(x["ch"][0]), strip(x["ch"][1])
+                for u, v in ((a, b), (b, a)):
+                    if u is not None and u["k"] == "Member" and u.get("n") == "search_id" and v is not None and v["k"] == "Ref":
+                        stamps.add((v.get("dk"), v["n"], v.get("d")))
+        for dk, name, d in sorted(stamps, key=str):
+            n += 1
+            if dk != "global":
+                res.add("R5b.visited_stamp_stable", "R5b|%s|%s|%s" % (f.relfile(), f.name, name), f.where(), True,
+                        "the visited stamp `%s` is a %s of the walk: it cannot change while the walk runs" % (name, dk))
+                continue
+            # functions reachable from f (including f: a write in f itself outside ... counts too)
+            seen = set()
+            st = [k for k in cg.get(f.key, ()) if k != f.key]
+            while st:
+                k = st.pop()
+                if k in seen:
+                    continue
+                seen.add(k)
+                st.extend(cg.get(k, ()))
+            seen.discard(f.key)
+            bad = sorted(byk[k].name for k in writers.get(name, ()) if k in seen and k in byk)
+            own = [x for x in f.walk() if (x["k"] == "Unary" and ("++" in (x.get("op") or "")) or x["k"] in ("Assign", "CompoundAssign")) and
+                   strip(x["ch"][0]) is not None and strip(x["ch"][0])["k"] == "Ref" and strip(x["ch"][0]).get("n") == name]
+            ok = not bad and not own
+            res.add("R5b.visited_stamp_stable", "R5b|%s|%s|%s" % (f.relfile(), f.name, name), f.where(), ok,
+                    "nothing the walk can call changes the global stamp `%s`" % name if ok else
+                    "the recursive walk %s compares node->search_id with the global `%s`, which %s (reachable from the walk) change%s: visited "
+                    "marks go stale in mid-walk and a cycle in the graph is followed until the stack is exhausted" %
+                    (f.name, name, ", ".join(bad[:4]) or f.name, "" if len(bad) != 1 else "s"))
+    res.floor("R5b.visited_stamp_stable", "recursive walks with a search_id stamp", n, 3)
+
+
 def _listdo_loops(f):
     """(loop node, list expression, element Var, element assignment) of every LISTdo expansion"""
     for n in f.walk():
@@ -421,6 +482,7 @@ def run(prog, res, tier):
     r1_cursors(prog, res)
     r2_escape_then_free(prog, res)
     r5_recursion_marks(prog, res)
+    r5b_stamp_stable(prog, res)
     nn = Nullness(prog)
     r6_nullable_elements(prog, res, reachable, nn)
     r6_lookup_results(prog, res, reachable, nn)
